@@ -251,6 +251,8 @@ class Oracle(object):
       m.cov["reference_fits"] += 1
       h.ref_blob = pickle.dumps(ref)
       self.compare_models(m, h, ref, Dp, "after fit #%d" % h.n_fits)
+    elif live.get("fault_fired"):
+      return        # the simulator made the preprocessor fail inside this fit
     elif h.n_fits > 1 or len(m.handles) > 1:
       # a well-formed fit raised on an object with history: does a fresh one?
       try:
